@@ -81,9 +81,36 @@ def deliver_direct(raw: bytes):
         return None  # constructor documents ValueError for readouts without '/' or '!'
 
 
-def deliver_reader(raw: bytes, cuts):
+HISTORIES = ["fresh", "fresh", "after-valid-readout", "after-abandoned-long-readout", "after-long-line", "after-invalid-readout", "after-ident-lines"]
+
+
+def history_bytes(kind: str, seed: int) -> bytes:
+    """What the same reader instance has seen before the readout under test (always ends at a line end, so the
+    readout under test starts on a fresh line)."""
+    if kind == "fresh":
+        return b""
+    if kind == "after-valid-readout":
+        return G.build_readout((("LGF", "5", "", "E360"), 3, seed, "upper", True))
+    if kind == "after-abandoned-long-readout":  # identification line + more than 8191 bytes of data lines, never an end line
+        return b"/ABC5abandoned\r\n" + G.expand_lines(330, seed, False)
+    if kind == "after-long-line":
+        return b"/ABC5x\r\n1-0:1.8.0(" + b"7" * 9000 + b")\r\n"
+    if kind == "after-invalid-readout":
+        return b"/ABC5x\r\n1-0:1.8.0(1*kWh)\r\n!FFFF\r\n"
+    if kind == "after-ident-lines":
+        return b"/ABC5one\r\n/ABC5two\r\n!\r\n"
+    raise ValueError(kind)
+
+
+def deliver_reader(raw: bytes, cuts, history=b""):
     reader = dlde.ModeDReader()
     out = []
+    if history:
+        try:
+            for ch in GH.split(history, ("fixed", 1000, 0)):
+                reader.read(ch)
+        except Exception:  # noqa: BLE001 - C14's subject
+            return None
     for ch in GH.split(raw, cuts):
         try:
             out.extend(reader.read(ch))
@@ -95,6 +122,7 @@ def deliver_reader(raw: bytes, cuts):
 def oracle(case) -> Info:
     """case = (base readout bytes, mutation, cuts)."""
     base, mut, cuts = case[0], tuple(case[1]), tuple(case[2])
+    hist_kind = case[3] if len(case) > 3 else "fresh"
     a0 = analyse(base)
     assert a0["ident_ok"] and a0["end"] is not None and (a0["checksum"] is None or a0["checksum"] == a0["crc"]), "generator produced a bad base readout"
     kind = mut[0]
@@ -126,6 +154,11 @@ def oracle(case) -> Info:
             line = line[:5] + b"\x07" + line[5:]
         elif how == "digitman":
             line = b"/1" + line[2:]
+        elif how == "highbit":  # an 8-bit character somewhere in the identification line (never well-formed: the line is ASCII)
+            i = 1 + mut[3] % (len(line) - 1)
+            line = line[:i] + bytes([line[i] | 0x80]) + line[i + 1 :]
+        elif how == "trailing-8bit-space":
+            line = line + bytes([0x85 if mut[3] % 2 else 0xA0])
         raw = bytearray(line + b"\r\n" + bytes(raw[lf + 1 :]))
         if mut[2]:  # keep the checksum consistent with the damaged line, so only the identification is wrong
             a1 = analyse(bytes(raw))
@@ -141,7 +174,8 @@ def oracle(case) -> Info:
         results.append(judge(obj, raw, "DataReadout(bytes)", untouched and raw.isascii()))
     elif untouched:
         fail(f"DataReadout() refused a well-formed readout {raw!r:.200}", sig="s3-ctor")
-    got = deliver_reader(raw, cuts)
+    got = deliver_reader(raw, cuts, history_bytes(hist_kind, len(base)))
+    classes.append(f"reader-history:{hist_kind}")
     if got is None:
         classes.append("reader-raised")
     else:
@@ -175,10 +209,10 @@ def case_st(draw):
     elif kind == "checksum":
         mut = ("checksum", draw(st.sampled_from(["zero", "zero", "plus1", "minus1", "swapped", "drawn", "true"])), draw(st.integers(0, 0xFFFF)), draw(st.sampled_from(["upper", "lower", "mixed"])))
     elif kind == "ident":
-        mut = ("ident", draw(st.sampled_from(["lower", "nobaud", "long", "ctrl", "digitman"])), draw(st.booleans()))
+        mut = ("ident", draw(st.sampled_from(["lower", "nobaud", "long", "ctrl", "digitman", "highbit", "highbit", "trailing-8bit-space"])), draw(st.booleans()), draw(st.integers(0, 63)))
     else:
         mut = (kind,)
-    return (base, mut, draw(GH.cuts_st()))
+    return (base, mut, draw(GH.cuts_st()), draw(st.sampled_from(HISTORIES)))
 
 
 def build() -> Check:
@@ -189,8 +223,8 @@ def build() -> Check:
             "Base readouts from the IEC 62056-21 grammar (varied identification lines, 0..12 data lines, checksum upper/lower/absent) plus six "
             "readouts constructed to have true CRC 0x0000; then one mutation: none | any single bit flipped | checksum field replaced "
             "(0000, true+-1, octets swapped, drawn value, true value; upper/lower/mixed case) | checksum removed | identification line "
-            "damaged (lower-case letters, missing baud digit, >16 id chars, control char, digit in manufacturer id; checksum recomputed or "
-            "not). Each is delivered directly (DataReadout(bytes)) and through ModeDReader with a drawn splitting. Non-trivial = the "
+            "damaged (lower-case letters, missing baud digit, >16 id chars, control char, digit in manufacturer id, bit 7 set on any "
+            "character, trailing 0x85/0xA0; checksum recomputed or not). Each is delivered directly (DataReadout(bytes)) and through a ModeDReader with a drawn splitting and a drawn reader history (fresh, after a valid readout, after an abandoned >8191-byte readout, after an over-long line, after an invalid readout, after stray identification lines). Non-trivial = the "
             "mutated readout carries a syntactic 4-hex checksum that differs from the true CRC, or it is untouched, and at least one object "
             "was judged. The 0000-on-nonzero-CRC class is counted separately (checksum-wrong-0000). Distinct = case hash."
         ),
